@@ -534,3 +534,104 @@ Proof.
     destruct (step E s o) as [s' out] eqn:Hstep. simpl. by eapply disjoint_step. }
   apply H. split; intros n [? Hs]; simpl in Hs; by rewrite lookup_empty in Hs.
 Qed.
+
+(* ---------- at most one refund per external transaction name ---------- *)
+
+Definition in_store (s : state) (n : name) : Prop :=
+  is_Some (ongoing s !! n) \/ is_Some (passed s !! n) \/ is_Some (failed s !! n).
+
+Definition refund_inv (s : state) : Prop :=
+  forall n, n ∈ refunded_names (log s) ->
+    in_store s n /\
+    forall t, ongoing s !! n = Some t -> t_type t = T_REDEEM -> t_state t = S_FAILED /\ failedb t = true.
+
+Lemma refund_inv_transition nl s n s' r : refund_inv s -> transition nl s n = (s', r) -> refund_inv s'.
+Proof.
+  intros Hinv Htr.
+  pose proof (transition_bal_log nl s n) as [_ Hlog]. rewrite Htr in Hlog. simpl in Hlog.
+  apply transition_cases in Htr as [->|(t & Ht & Hc)]; [done|].
+  intros m Hm. rewrite Hlog in Hm. destruct (Hinv m Hm) as [Hin Hty].
+  destruct (decide (m = n)) as [->|Hne].
+  - destruct Hc as [(X & Hx & ->)|[[Hs ->]|[Hs ->]]]; unfold in_store; simpl.
+    + rewrite lookup_insert. split; [left; by eexists|]. intros t0 [= <-] Hr. simpl in Hr.
+      destruct (Hty t Ht Hr) as [Hst _]. unfold S_NEW, S_BUSYBROADCASTING, S_BUSYFINALIZING, S_FAILED in *. lia.
+    + rewrite lookup_delete, lookup_insert. split; [right; left; by eexists|done].
+    + rewrite lookup_delete, lookup_insert. split; [right; right; by eexists|done].
+  - destruct Hc as [(X & Hx & ->)|[[Hs ->]|[Hs ->]]]; unfold in_store in *; simpl;
+      rewrite ?lookup_insert_ne, ?lookup_delete_ne by done; done.
+Qed.
+
+Lemma refund_inv_end_block nl names : forall s s' r, refund_inv s -> end_block nl s names = (s', r) -> refund_inv s'.
+Proof.
+  induction names as [|n rest IH]; intros s s' r Hinv; simpl; [intros [= <- _]; done|].
+  destruct (transition nl s n) as [s1 o1] eqn:H1. destruct (end_block nl s1 rest) as [s2 o2] eqn:H2.
+  intros [= <- _]. eapply IH; [|exact H2]. by eapply refund_inv_transition.
+Qed.
+
+Lemma refund_inv_step E s o s' r : refund_inv s -> step E s o = (s', r) -> refund_inv s'.
+Proof.
+  intros Hinv. destruct o as [snd x|snd x|n l v idx b|f t0 amt|nl names]; simpl.
+  - unfold do_lock. destruct (x_lock (e_tx E x)); [|intros [= <- _]; done].
+    destruct (negb _); [intros [= <- _]; done|].
+    destruct (has (ongoing s) _) eqn:Ho; simpl; [intros [= <- _]; done|].
+    destruct (has (passed s) _) eqn:Hp; simpl; [intros [= <- _]; done|].
+    intros [= <- _]. intros m Hm. simpl in *. destruct (Hinv m Hm) as [Hin Hty]. unfold in_store in *. simpl.
+    destruct (decide (m = x_name (e_tx E x))) as [->|Hne].
+    + rewrite lookup_insert. split; [left; by eexists|]. intros t0 [= <-]. simpl. unfold T_LOCK, T_REDEEM. lia.
+    + rewrite lookup_insert_ne, lookup_delete_ne by done. done.
+  - unfold do_redeem. destruct (x_redeem (e_tx E x)); [|intros [= <- _]; done].
+    destruct (_ <? 0); [intros [= <- _]; done|]. destruct (_ <? 0); [intros [= <- _]; done|].
+    destruct (has (ongoing s) _) eqn:Ho; simpl; [intros [= <- _]; done|].
+    destruct (has (failed s) _) eqn:Hf; simpl; [intros [= <- _]; done|].
+    destruct (has (passed s) _) eqn:Hp; simpl; [intros [= <- _]; done|].
+    intros [= <- _]. apply has_false in Ho, Hf, Hp. intros m Hm. simpl in *.
+    destruct (Hinv m Hm) as [Hin Hty]. unfold in_store in *. simpl.
+    destruct (decide (m = x_name (e_tx E x))) as [->|Hne].
+    + exfalso. rewrite Ho, Hf, Hp in Hin. destruct Hin as [[? ?]|[[? ?]|[? ?]]]; done.
+    + rewrite lookup_insert_ne by done. done.
+  - intros Hstep. apply report_cases in Hstep as [->|(t & t' & Ht & Hfin & Hfail & Hav & _ & Hsh)]; [done|].
+    apply add_vote_fields in Hav as (Hty' & _).
+    assert (Hold : forall m X, m ∈ refunded_names (log s) ->
+              (is_Some (<[n := X]> (ongoing s) !! m) \/ is_Some (passed s !! m) \/ is_Some (failed s !! m)) /\
+              forall t0, <[n := X]> (ongoing s) !! m = Some t0 -> t_type X = t_type t' -> t_type t0 = T_REDEEM ->
+                         t_state t0 = S_FAILED /\ failedb t0 = true).
+    { intros m X Hm. destruct (Hinv m Hm) as [Hin Hty]. destruct (decide (m = n)) as [->|Hne].
+      - rewrite lookup_insert. split; [left; by eexists|]. intros t0 [= <-] HX Hr.
+        destruct (Hty t Ht ltac:(congruence)) as [_ Hf]. congruence.
+      - rewrite lookup_insert_ne by done. split; [done|]. intros t0 Ht0 _ Hr. by apply Hty. }
+    inversion Hsh; subst; intros m Hm; unfold in_store; simpl in *.
+    + destruct (Hold m (set_state t' S_RELEASED) Hm) as [Hin Hty]. split; [done|]. intros t0 Ht0. by apply Hty.
+    + destruct (Hold m (set_state t' S_RELEASED) Hm) as [Hin Hty]. split; [done|]. intros t0 Ht0. by apply Hty.
+    + destruct (Hold m (set_state t' S_FAILED) Hm) as [Hin Hty]. split; [done|]. intros t0 Ht0. by apply Hty.
+    + apply elem_of_cons in Hm as [->|Hm].
+      * rewrite lookup_insert. split; [left; by eexists|]. intros t0 [= <-] _. simpl. by rewrite failedb_set_state.
+      * destruct (Hold m (set_state t' S_FAILED) Hm) as [Hin Hty]. split; [done|]. intros t0 Ht0. by apply Hty.
+    + destruct (Hold m t' Hm) as [Hin Hty]. split; [done|]. intros t0 Ht0. by apply Hty.
+  - unfold do_transfer. repeat case_match; intros [= <- _]; done.
+  - intros Hstep. by eapply refund_inv_end_block.
+Qed.
+
+Definition refund_once (s : state) : Prop := refund_inv s /\ NoDup (refunded_names (log s)).
+
+Lemma refund_once_step E s o s' r : refund_once s -> step E s o = (s', r) -> refund_once s'.
+Proof.
+  intros [Hinv Hnd] Hstep. split; [by eapply refund_inv_step|].
+  destruct o as [snd x|snd x|n l v idx b|f t0 amt|nl names]; simpl in Hstep.
+  - unfold do_lock in Hstep. repeat case_match; injection Hstep as <- _; done.
+  - unfold do_redeem in Hstep. repeat case_match; injection Hstep as <- _; done.
+  - apply report_cases in Hstep as [->|(t & t' & Ht & Hfin & Hfail & Hav & _ & Hsh)]; [done|].
+    apply add_vote_fields in Hav as (Hty' & _).
+    inversion Hsh; subst; simpl; try done.
+    apply NoDup_cons. split; [|done].
+    intros Hm. destruct (Hinv n Hm) as [_ Hty]. destruct (Hty t Ht ltac:(congruence)) as [_ Hf]. congruence.
+  - unfold do_transfer in Hstep. repeat case_match; injection Hstep as <- _; done.
+  - pose proof (end_block_bal_log nl names s) as [_ Hl]. rewrite Hstep in Hl. simpl in Hl. by rewrite Hl.
+Qed.
+
+Theorem refund_at_most_once E ops b : NoDup (refunded_names (log (run E (init b) ops))).
+Proof.
+  assert (H : forall ops s, refund_once s -> refund_once (run E s ops)).
+  { clear ops. induction ops as [|o r IH]; intros s Hs; [done|]. simpl. apply IH.
+    destruct (step E s o) as [s' out] eqn:Hstep. simpl. by eapply refund_once_step. }
+  apply H. split; [intros n Hn; simpl in Hn; by apply elem_of_nil in Hn|simpl; constructor].
+Qed.
